@@ -242,6 +242,34 @@ def kf_scenarios(sid0, seed):
     return out
 
 
+def pattern_scenarios(sid0, seed, rnd):
+    """Two LONG-LIVED handles on one file (the tiny TLC world has one handle slot): a reader seeks
+    strictly beyond EOF and reads there, a writer appends at EOF through another handle until the
+    file has grown past the reader's offset, the reader reads again without seeking (its cached
+    position must have been invalidated or still be right).  Under every block size 1-4 and flush
+    placement, with block-aligned and unaligned appends."""
+    o = lambda h, p, acc="rw", cr=True, ap=False: {"op": "open", "h": h, "p": p, "acc": acc, "cr": cr, "ex": False,
+                                                  "tr": False, "ap": ap}
+    out = []
+    i = 0
+    for bs in (1, 2, 3, 4):
+        for fl in FLUSHES:
+            first = "".join(rnd.choice("xy") for _ in range(bs * rnd.randint(1, 2)))
+            delta = rnd.randint(1, 2 * bs)
+            grow = "".join(rnd.choice("abcdefgh") for _ in range(delta + rnd.randint(1, 2 * bs)))
+            more = "".join(rnd.choice("klmnopq") for _ in range(bs * rnd.randint(1, 2)))
+            ops = [o(1, ["a"]), {"op": "write", "h": 1, "d": first},
+                   o(2, ["a"], "r", False), {"op": "seek", "h": 2, "off": len(first) + delta, "wh": 0},
+                   {"op": "read", "h": 2, "n": 2},
+                   {"op": "write", "h": 1, "d": grow}, {"op": "read", "h": 2, "n": 2},
+                   {"op": "write", "h": 1, "d": more}, {"op": "read", "h": 2, "n": 3},
+                   {"op": "trunc", "h": 1, "n": len(first) + len(grow) + len(more) + 2 * bs}, {"op": "read", "h": 2, "n": 64}]
+            out.append({"id": sid0 + i, "mode": "steps", "bs": bs, "flush": fl, "rseed": seed + i, "init": "empty",
+                        "gen": "pattern", "ops": ops})
+            i += 1
+    return out
+
+
 def build_scenarios(ctx, paths, rnd):
     scns = []
     sid = 0
@@ -270,6 +298,7 @@ def build_scenarios(ctx, paths, rnd):
                      "rseed": ctx.seed * 104729 + i, "nops": 120, "init": "manifest" if i % 2 else "empty",
                      "gen": "smoke"})
     scns += kf_scenarios(sid + 1, ctx.seed)
+    scns += pattern_scenarios(sid + 100, ctx.seed, rnd)
     return scns
 
 
